@@ -451,6 +451,140 @@ def _drop_dead_defs(fdef, body):
     return clean(body)
 
 
+# -- N21 / N22: pre-passes on the plain Python AST of one function ---------------------------------------------------------------
+def _child_lists(st):
+    """(owner, field) of the statement lists directly inside a compound statement (not inside nested definitions)"""
+    out = []
+    if isinstance(st, (ast.FunctionDef, ast.AsyncFunctionDef, ast.ClassDef)):
+        return out
+    for f in ("body", "orelse", "finalbody"):
+        if isinstance(getattr(st, f, None), list):
+            out.append((st, f))
+    for h in getattr(st, "handlers", []) or []:
+        out.append((h, "body"))
+    return out
+
+
+def _simple_return(st):
+    return isinstance(st, ast.Return) and (st.value is None or isinstance(st.value, (ast.Name, ast.Constant)))
+
+
+def _sink_returns(stmts):
+    """N22: `<if / try> ; return v` -> the return is copied to the end of every branch that falls through (v a plain name or constant, so the
+    copy cannot raise and evaluates nothing twice); `x = E; return x` -> `return E`.  Single-exit code and early-return code get one form."""
+    for st in stmts:
+        for owner, f in _child_lists(st):
+            setattr(owner, f, _sink_returns(getattr(owner, f)))
+    changed = True
+    while changed:
+        changed = False
+        if len(stmts) >= 2 and _simple_return(stmts[-1]):
+            c, r = stmts[-2], stmts[-1]
+            if isinstance(c, ast.If):
+                for f in ("body", "orelse"):
+                    br = getattr(c, f)
+                    if not _ends_flow(br):
+                        setattr(c, f, _sink_returns(br + [copy.deepcopy(r)]))
+                stmts = stmts[:-1]
+                changed = True
+            elif isinstance(c, ast.Try) and not c.finalbody and not any(isinstance(x, (ast.Break, ast.Continue)) for x in ast.walk(c)):
+                tgt = "orelse" if c.orelse else "body"
+                if not _ends_flow(getattr(c, tgt)):
+                    setattr(c, tgt, _sink_returns(getattr(c, tgt) + [copy.deepcopy(r)]))
+                for h in c.handlers:
+                    if not _ends_flow(h.body):
+                        h.body = _sink_returns(h.body + [copy.deepcopy(r)])
+                stmts = stmts[:-1]
+                changed = True
+        if len(stmts) >= 2 and isinstance(stmts[-1], ast.Return) and isinstance(stmts[-1].value, ast.Name) and isinstance(stmts[-2], ast.Assign) \
+                and len(stmts[-2].targets) == 1 and isinstance(stmts[-2].targets[0], ast.Name) and stmts[-2].targets[0].id == stmts[-1].value.id:
+            stmts = stmts[:-2] + [ast.copy_location(ast.Return(value=stmts[-2].value), stmts[-2])]
+            changed = True
+    return stmts
+
+
+def _is_boolish(e):
+    if isinstance(e, ast.Compare):
+        return True
+    if isinstance(e, ast.UnaryOp) and isinstance(e.op, ast.Not):
+        return True
+    if isinstance(e, ast.BoolOp):
+        return all(_is_boolish(v) for v in e.values)
+    if isinstance(e, ast.Call) and isinstance(e.func, ast.Name) and e.func.id in ("isinstance", "any", "all", "bool", "callable", "hasattr", "issubclass"):
+        return True
+    return False
+
+
+def _propagate_bools(fdef):
+    """N21: a local bound once to a boolean expression (`in_range = type(i) == int and 0 <= i < N`) and then only tested stands for that
+    expression: its uses are replaced by the expression and the assignment is dropped.  Safe when nothing the expression reads can change
+    between the assignment and the uses: operands are plain locals that are not re-bound afterwards, or - when the expression reads attributes,
+    subscripts or calls something - the only use is the test of the statement that immediately follows."""
+    stores, loads = {}, {}
+    for n in ast.walk(fdef):
+        if isinstance(n, ast.Name):
+            (stores if isinstance(n.ctx, (ast.Store, ast.Del)) else loads).setdefault(n.id, []).append(n)
+        elif isinstance(n, ast.arg):
+            stores.setdefault(n.arg, []).append(n)
+        elif isinstance(n, (ast.Global, ast.Nonlocal)):
+            for nm in n.names:
+                stores.setdefault(nm, []).extend([n, n])
+
+    def try_list(stmts):
+        i = 0
+        while i < len(stmts):
+            st = stmts[i]
+            for owner, f in _child_lists(st):
+                try_list(getattr(owner, f))
+            if isinstance(st, ast.Assign) and len(st.targets) == 1 and isinstance(st.targets[0], ast.Name) and _is_boolish(st.value):
+                b = st.targets[0].id
+                uses = loads.get(b, [])
+                rest = stmts[i + 1:]
+                inside = {id(x) for r_ in rest for x in ast.walk(r_)}
+                if len(stores.get(b, [])) == 1 and uses and all(id(u) in inside for u in uses):
+                    operands = {x.id for x in ast.walk(st.value) if isinstance(x, ast.Name)}
+                    impure = any(isinstance(x, (ast.Attribute, ast.Subscript, ast.Call, ast.NamedExpr, ast.Await, ast.Yield)) for x in ast.walk(st.value))
+                    later_stores = {x.id for r_ in rest for x in ast.walk(r_) if isinstance(x, ast.Name) and isinstance(x.ctx, (ast.Store, ast.Del))}
+                    in_loop_risk = any(isinstance(x, (ast.For, ast.While)) for r_ in rest for x in ast.walk(r_)) and (operands & later_stores)
+                    ok = not (operands & later_stores) and not in_loop_risk
+                    if ok and impure:
+                        nxt = rest[0] if rest else None
+                        head = None
+                        if isinstance(nxt, (ast.If, ast.While)):
+                            head = nxt.test
+                        elif isinstance(nxt, (ast.Return, ast.Expr, ast.Assign)):
+                            head = nxt.value
+                        elif isinstance(nxt, ast.Raise):
+                            head = nxt.exc
+                        ok = len(uses) == 1 and head is not None and any(x is uses[0] for x in ast.walk(head)) and not isinstance(nxt, ast.While)
+                        if ok:
+                            # the use must be the first thing evaluated in that head: b itself, `not b`, or the first operand of a BoolOp
+                            h_ = head
+                            while True:
+                                if h_ is uses[0]:
+                                    break
+                                if isinstance(h_, ast.UnaryOp) and isinstance(h_.op, ast.Not):
+                                    h_ = h_.operand
+                                elif isinstance(h_, ast.BoolOp):
+                                    h_ = h_.values[0]
+                                else:
+                                    ok = False
+                                    break
+                    if ok:
+                        class R(ast.NodeTransformer):
+                            def visit_Name(s_, node):
+                                if isinstance(node.ctx, ast.Load) and node.id == b:
+                                    return ast.copy_location(copy.deepcopy(st.value), node)
+                                return node
+                        for k in range(i + 1, len(stmts)):
+                            stmts[k] = R().visit(stmts[k])
+                        del stmts[i]
+                        loads.pop(b, None)
+                        continue
+            i += 1
+    try_list(fdef.body)
+
+
 class _Rename(ast.NodeTransformer):
     def __init__(self, m):
         self.m = m
@@ -693,6 +827,8 @@ class Normalizer:
         if getattr(fdef, "_normalised", False):
             return
         fdef._normalised = True
+        _propagate_bools(fdef)
+        fdef.body = _sink_returns(fdef.body)
         state = {"locals": _local_names(fdef), "caller": stack[0], "displays": _single_displays(fdef), "module": modname, "root": fdef}
         self._closures = {}
         fdef.body = _drop_dead_defs(fdef, _flatten_blocks(self._stmts(fdef.body, modname, cname, stack, state)))
@@ -908,6 +1044,8 @@ class Normalizer:
         # the helper's own helpers first (with the extended stack)
         hname = fdef.name.strip("_")
         hcls = qual.split(":")[1].split(".")[0] if "." in qual.split(":")[1] else None
+        _propagate_bools(helper)
+        helper.body = _sink_returns(helper.body)
         sub_state = {"locals": _local_names(helper), "caller": qual, "module": modname, "root": helper}
         outer_closures, self._closures = self._closures, {}
         helper.body = self._stmts(helper.body, modname, hcls, stack + (qual,), sub_state)
